@@ -39,10 +39,12 @@ func main() {
 		tieC: res.Tie("coll-stream", "K1", "random write histories on a Collection (Add/Update/Delete, successful and failing, every write option, with/without write time, id interceptor, generated ids, fixed/ticking clock, empty/one/many initial records) with backpressured Pull subscribers opened at random points (read mask, updates-only; resource equivalence none/equal/sameA); compared: every seed and every delivery after every write. distinct = distinct (config, op, subscriptions, answer)"),
 		tieV: res.Tie("value-stream", "K1", "the same for Value.Set / Value.Pull (with/without initial value)"),
 		tieS: res.Tie("small-scope", "K2", "ALL write histories up to the stated length over ids {a,b} (add/update/create-update/delete/failing-precondition) x every subscription point x {plain, updates-only, read mask} x equivalence {none, equal}; distinct = distinct scripts"),
+		tieR: res.Tie("subscribe-during-write", "K4", "a subscriber opens WHILE one write is in flight, steered through the yield points: (a) subscriber parked at {value,coll}.onUpdate.beforeListen (between its snapshot and its bus registration) while the write runs - compared: whether the write is blocked on the resource lock (decided from the goroutine's wait reason) or finishes, the seed, every delivery; (b) write parked at value.set.beforeSend / coll.update.beforeSend (committed, not published) while the subscriber opens. ALL (initial contents, prefix write, write in flight, follow-up write) over the small alphabet x both kinds x {plain, updates-only, read mask} x equivalence {none, equal}, Collection and Value; the random K1 histories contain such scenarios too. distinct = distinct scripts"),
 		mon:  res.Monitor("writer-log", "the stream each subscriber received vs the writer's own log: seed = current contents sorted by id, flagged, last flagged last, stored change time; then exactly one event per successful write (none for failed writes or a no-op delete), id/kind/old/new from what the writer's calls returned, time = write time or a clock reading within the write, suppression iff the configured equivalence relates the compared pair"),
 	}
 	r := lib.NewRand(f.Seed)
 	h.smallScope(f.N(3, 4))
+	h.raceScope(h.tieR)
 	for _, s := range fixedScripts() {
 		h.runScript(s, h.tieFor(s))
 	}
@@ -56,6 +58,7 @@ func main() {
 		h.runScript(s, h.tieFor(s))
 	}
 	h.tieS.Exhaustive = true
+	h.tieR.Exhaustive = true
 	res.Extra["ops_total"] = h.ops
 	if err := res.Write(f.Out); err != nil {
 		lib.Fatal(err)
@@ -63,10 +66,10 @@ func main() {
 }
 
 type harness struct {
-	drv              *lib.Driver
-	tieC, tieV, tieS *lib.Tie
-	mon              *lib.Monitor
-	ops              int
+	drv                    *lib.Driver
+	tieC, tieV, tieS, tieR *lib.Tie
+	mon                    *lib.Monitor
+	ops                    int
 }
 
 func (h *harness) tieFor(s Script) *lib.Tie {
@@ -80,9 +83,14 @@ func (o Op) subLine() string {
 	return o.Op + " " + strings.Join(o.Opts, " ")
 }
 
+func isRace(o Op) bool { return o.Op == "racea" || o.Op == "raceb" }
+
 func opLine(o Op) string {
 	if o.Op == "sub" || o.Op == "unsub" {
 		return o.subLine()
+	}
+	if isRace(o) {
+		return o.Op + " id=" + o.ID + " msg=" + o.Msg + " " + strings.Join(o.Opts, " ")
 	}
 	return o.line()
 }
@@ -105,6 +113,12 @@ func runCode(s Script) []obs {
 			o.ans = r.subscribe(op)
 		case "unsub":
 			o.ans = r.unsubscribe(op)
+		case "racea":
+			o.ans = r.raceA(op)
+			o.ids = lastRaceIDs
+		case "raceb":
+			o.ans = r.raceB(op)
+			o.ids = lastRaceIDs
 		default:
 			a, sends := r.runWrite(op)
 			if strings.HasPrefix(a, "panic:") || strings.HasPrefix(a, "!") {
@@ -158,11 +172,15 @@ func (h *harness) runScript(s Script, tie *lib.Tie) {
 	for i, op := range s.Ops {
 		h.ops++
 		key := s.Cfg.line() + "#" + opLine(op) + "#" + subsDesc + "#" + code[i].ans
-		if tie == h.tieS {
+		exh := tie == h.tieS || tie == h.tieR
+		if exh {
 			key = scriptKey(s)
 		}
-		tie.Record(key, tie != h.tieS || i == len(s.Ops)-1, map[string]any{"script": prefix(s, i+1)}, model[i], code[i].ans)
+		tie.Record(key, !exh || i == len(s.Ops)-1, map[string]any{"script": prefix(s, i+1)}, model[i], code[i].ans)
 		tie.Count("op:" + op.Op)
+		if isRace(op) {
+			tie.Count(op.Op + ":" + strings.SplitN(code[i].ans, " ", 2)[0])
+		}
 		if op.isWrite() {
 			tie.Count("err:" + part(code[i].ans, "err"))
 			if strings.Contains(code[i].ans, "=[]") {
@@ -177,7 +195,7 @@ func (h *harness) runScript(s Script, tie *lib.Tie) {
 		}
 		h.mon.Eval(key, true, nil)
 		w.check(h.mon, s, i, code[i])
-		if op.Op == "sub" || op.Op == "unsub" {
+		if op.Op == "sub" || op.Op == "unsub" || isRace(op) {
 			subsDesc += opLine(op) + ";"
 		}
 	}
@@ -278,6 +296,24 @@ func splitList(s string) []string {
 	return strings.Split(s, ";")
 }
 
+func (w *writerLog) clone() *writerLog {
+	c := &writerLog{cfg: w.cfg, ref: map[string]refEntry{}, subs: map[string]*subState{}, order: append([]string(nil), w.order...)}
+	for k, v := range w.ref {
+		c.ref[k] = v
+	}
+	if w.val != nil {
+		v := *w.val
+		c.val = &v
+	}
+	for k, v := range w.subs {
+		sv := *v
+		c.subs[k] = &sv
+	}
+	return c
+}
+
+func (w *writerLog) adopt(c *writerLog) { *w = *c }
+
 func (w *writerLog) check(m *lib.Monitor, s Script, i int, o obs) {
 	op := s.Ops[i]
 	in := map[string]any{"script": prefix(s, i+1)}
@@ -286,6 +322,10 @@ func (w *writerLog) check(m *lib.Monitor, s Script, i int, o obs) {
 		kind = "Value"
 	}
 	sig := "C04/" + kind + ".Pull"
+	if isRace(op) {
+		// a delivery that never arrived is a missing event, not a stall of the harness
+		o.ans = strings.NewReplacer(";!timeout", "", "!timeout", "").Replace(o.ans)
+	}
 	if strings.HasPrefix(o.ans, "panic:") || strings.HasPrefix(o.ans, "!") || strings.Contains(o.ans, "!timeout") ||
 		strings.Contains(o.ans, "!closed") || strings.Contains(o.ans, "!no-equivalence-call") {
 		m.Violate(sig+"/panic-or-stall", "a call panicked, stalled, or an expected delivery never arrived", in, "answer", o.ans)
@@ -301,77 +341,151 @@ func (w *writerLog) check(m *lib.Monitor, s Script, i int, o obs) {
 				break
 			}
 		}
-		return
 	case "sub":
-		name, _ := op.opt("name")
-		st := &subState{last: "nil"}
-		if v, ok := op.opt("rm"); ok {
-			st.rm = &v
-		}
-		w.subs[name] = st
-		w.order = append(w.order, name)
-		got := splitList(part(o.ans, "seed"))
-		if op.has("uo") {
-			if len(got) != 0 {
-				m.Violate(sig+"/seed/updates-only-got-seed", "an updates-only subscription received seed events", in, "[]", part(o.ans, "seed"))
-			}
-			return
-		}
-		if w.cfg.Kind == "val" {
-			if w.val == nil {
-				if len(got) != 0 {
-					m.Violate(sig+"/seed/count", "seed for an absent value", in, "[]", part(o.ans, "seed"))
-				}
-				return
-			}
-			if len(got) != 1 {
-				m.Violate(sig+"/seed/count", "a present value must be seeded by exactly one event", in, "1 event", part(o.ans, "seed"))
-				return
-			}
-			f := strings.Split(got[0], "|")
-			want := proj(w.val.msg, st.rm)
-			t, _ := strconv.Atoi(f[1])
-			switch {
-			case f[0] != want:
-				m.Violate(sig+"/seed/wrong-value", "seed value is not the (projected) current value", in, want, f[0])
-			case f[2] != "SL":
-				m.Violate(sig+"/seed/wrong-flags", "seed of a Value must be flagged seed and last-seed", in, "SL", f[2])
-			case !w.val.timeOK(t):
-				m.Violate(sig+"/seed/wrong-time", "seed does not carry the stored change time", in, fmt.Sprint(*w.val), f[1])
-			}
-			st.last = want
-			return
-		}
-		ids := make([]string, 0, len(w.ref))
-		for id := range w.ref {
-			ids = append(ids, id)
-		}
-		sort.Strings(ids)
-		if len(got) != len(ids) {
-			m.Violate(sig+"/seed/count", "seed must have one event per stored item", in, fmt.Sprint(ids), part(o.ans, "seed"))
-			return
-		}
-		for k, id := range ids {
-			f := strings.Split(got[k], "|")
-			e := w.ref[id]
-			t, _ := strconv.Atoi(f[1])
-			wantFlags := "S"
-			if k == len(ids)-1 {
-				wantFlags = "SL"
-			}
-			switch {
-			case f[0] != id:
-				m.Violate(sig+"/seed/not-sorted-by-id", "seed events are not the stored ids in increasing order", in, fmt.Sprint(ids), part(o.ans, "seed"))
-			case f[2] != "ADD" || f[3] != "nil" || f[4] != proj(e.msg, st.rm):
-				m.Violate(sig+"/seed/wrong-event", "seed event is not ADD(nil -> projected item)", in, "ADD|nil|"+proj(e.msg, st.rm), got[k])
-			case f[5] != wantFlags:
-				m.Violate(sig+"/seed/wrong-flags", "seed flags: all seed, exactly the last one last-seed", in, wantFlags, f[5])
-			case !e.timeOK(t):
-				m.Violate(sig+"/seed/wrong-time", "seed does not carry the item's stored change time", in, fmt.Sprint(e), f[1])
-			}
+		w.checkSub(m, in, sig, op, o.ans)
+	case "racea":
+		w.checkRaceA(m, in, sig, op, o)
+	case "raceb":
+		w.checkRaceB(m, in, sig, op, o)
+	default:
+		exp, evTime := w.applyWrite(m, in, op, o)
+		w.checkDeliveries(m, in, sig, exp, evTime, o.ans)
+	}
+}
+
+// checkRaceA: a subscriber opened while one write ran. The property: the write is either reflected
+// in the seed (and then not delivered) or not in the seed and delivered exactly once - either order of
+// the two is fine, anything else (in neither, or delivered on top of a seed that has it as if it were
+// new state) is a violation.
+func (w *writerLog) checkRaceA(m *lib.Monitor, in map[string]any, sig string, op Op, o obs) {
+	wop, sop := splitRace(op)
+	name, _ := sop.opt("name")
+	// candidate 1: subscribe, then the write
+	c1, m1 := w.clone(), lib.NewMonitor("c1", "")
+	c1.checkSub(m1, in, sig, sop, o.ans)
+	seedOK1 := len(m1.Violations) == 0
+	e1, t1 := c1.applyWrite(m1, in, wop, o)
+	c1.checkDeliveries(m1, in, sig, e1, t1, o.ans)
+	if len(m1.Violations) == 0 {
+		m.Count("racea:subscribe-first")
+		w.adopt(c1)
+		return
+	}
+	// candidate 2: the write, then subscribe (the new subscriber gets nothing of it)
+	c2, m2 := w.clone(), lib.NewMonitor("c2", "")
+	e2, t2 := c2.applyWrite(m2, in, wop, o)
+	c2.checkDeliveries(m2, in, sig, e2, t2, o.ans)
+	if part(o.ans, name) != "[]" {
+		m2.Violate(sig+"/delivered-although-in-seed", "the write is in the seed and was delivered as well", in, "[]", part(o.ans, name))
+	}
+	c2.checkSub(m2, in, sig, sop, o.ans)
+	if len(m2.Violations) == 0 {
+		m.Count("racea:write-first")
+		w.adopt(c2)
+		return
+	}
+	// neither order explains what the subscriber received
+	from := m2
+	if seedOK1 {
+		from = m1 // the seed is the one from before the write: the write had to be delivered
+	}
+	for _, v := range from.Violations {
+		last := v.Signature[strings.LastIndex(v.Signature, "/")+1:]
+		m.Violate(sig+"/concurrent-subscribe/"+last, "subscriber opened during a write: seed ++ events do not account for the write exactly once ("+v.What+")", in, v.Expected, v.Observed)
+	}
+	w.adopt(c1)
+}
+
+// checkRaceB: the write was committed but not yet published when the subscriber opened. The seed must
+// contain it; its event, published afterwards, must still be the write's own event (id, kind, old and
+// new as the writer knows them, change time) - for the new subscriber a stale duplicate whose new value
+// IS the seeded value, so folding it changes nothing - or be suppressed by the equivalence.
+func (w *writerLog) checkRaceB(m *lib.Monitor, in map[string]any, sig string, op Op, o obs) {
+	wop, sop := splitRace(op)
+	exp, evTime := w.applyWrite(m, in, wop, o)
+	if part(o.ans, "parked") == "true" {
+		w.checkSub(m, in, sig, sop, o.ans)
+		w.checkDeliveries(m, in, sig, exp, evTime, o.ans)
+		return
+	}
+	w.checkDeliveries(m, in, sig, exp, evTime, o.ans)
+	w.checkSub(m, in, sig, sop, o.ans)
+}
+
+func (w *writerLog) checkSub(m *lib.Monitor, in map[string]any, sig string, op Op, ans string) {
+	o := obs{ans: ans}
+	name, _ := op.opt("name")
+	st := &subState{last: "nil"}
+	if v, ok := op.opt("rm"); ok {
+		st.rm = &v
+	}
+	w.subs[name] = st
+	w.order = append(w.order, name)
+	got := splitList(part(o.ans, "seed"))
+	if op.has("uo") {
+		if len(got) != 0 {
+			m.Violate(sig+"/seed/updates-only-got-seed", "an updates-only subscription received seed events", in, "[]", part(o.ans, "seed"))
 		}
 		return
 	}
+	if w.cfg.Kind == "val" {
+		if w.val == nil {
+			if len(got) != 0 {
+				m.Violate(sig+"/seed/count", "seed for an absent value", in, "[]", part(o.ans, "seed"))
+			}
+			return
+		}
+		if len(got) != 1 {
+			m.Violate(sig+"/seed/count", "a present value must be seeded by exactly one event", in, "1 event", part(o.ans, "seed"))
+			return
+		}
+		f := strings.Split(got[0], "|")
+		want := proj(w.val.msg, st.rm)
+		t, _ := strconv.Atoi(f[1])
+		switch {
+		case f[0] != want:
+			m.Violate(sig+"/seed/wrong-value", "seed value is not the (projected) current value", in, want, f[0])
+		case f[2] != "SL":
+			m.Violate(sig+"/seed/wrong-flags", "seed of a Value must be flagged seed and last-seed", in, "SL", f[2])
+		case !w.val.timeOK(t):
+			m.Violate(sig+"/seed/wrong-time", "seed does not carry the stored change time", in, fmt.Sprint(*w.val), f[1])
+		}
+		st.last = want
+		return
+	}
+	ids := make([]string, 0, len(w.ref))
+	for id := range w.ref {
+		ids = append(ids, id)
+	}
+	sort.Strings(ids)
+	if len(got) != len(ids) {
+		m.Violate(sig+"/seed/count", "seed must have one event per stored item", in, fmt.Sprint(ids), part(o.ans, "seed"))
+		return
+	}
+	for k, id := range ids {
+		f := strings.Split(got[k], "|")
+		e := w.ref[id]
+		t, _ := strconv.Atoi(f[1])
+		wantFlags := "S"
+		if k == len(ids)-1 {
+			wantFlags = "SL"
+		}
+		switch {
+		case f[0] != id:
+			m.Violate(sig+"/seed/not-sorted-by-id", "seed events are not the stored ids in increasing order", in, fmt.Sprint(ids), part(o.ans, "seed"))
+		case f[2] != "ADD" || f[3] != "nil" || f[4] != proj(e.msg, st.rm):
+			m.Violate(sig+"/seed/wrong-event", "seed event is not ADD(nil -> projected item)", in, "ADD|nil|"+proj(e.msg, st.rm), got[k])
+		case f[5] != wantFlags:
+			m.Violate(sig+"/seed/wrong-flags", "seed flags: all seed, exactly the last one last-seed", in, wantFlags, f[5])
+		case !e.timeOK(t):
+			m.Violate(sig+"/seed/wrong-time", "seed does not carry the item's stored change time", in, fmt.Sprint(e), f[1])
+		}
+	}
+}
+
+// applyWrite: what the writer saw of one write; updates the writer's view of the contents and returns
+// the one event the write must have announced (nil: none) and the rule its change time obeys.
+func (w *writerLog) applyWrite(m *lib.Monitor, in map[string]any, op Op, o obs) (*[5]string, refEntry) {
 	// a write: what did the writer see?
 	val, errc := part(o.ans, "val"), part(o.ans, "err")
 	ent := refEntry{lo: o.clk0, hi: o.clk1}
@@ -379,7 +493,7 @@ func (w *writerLog) check(m *lib.Monitor, s Script, i int, o obs) {
 		ent.exact = true
 		ent.t, _ = strconv.Atoi(v)
 	}
-	evTime := ent // event time obeys the same rule as the stored time
+	evTime := ent      // event time obeys the same rule as the stored time
 	var exp *[5]string // id, kind, old, new (unprojected) of the one expected event; nil = none
 	switch {
 	case errc != "-" || val == "nil":
@@ -402,7 +516,7 @@ func (w *writerLog) check(m *lib.Monitor, s Script, i int, o obs) {
 		if id == "" && op.has("gid") {
 			ids := splitList(o.ids)
 			if len(ids) != 1 {
-				return // the writer did not ask to hear the generated id: nothing to compare ids with
+				return nil, evTime // the writer did not ask to hear the generated id: nothing to compare ids with
 			}
 			id = ids[0]
 		}
@@ -415,6 +529,11 @@ func (w *writerLog) check(m *lib.Monitor, s Script, i int, o obs) {
 		ent.msg = val
 		w.ref[id] = ent
 	}
+	return exp, evTime
+}
+
+func (w *writerLog) checkDeliveries(m *lib.Monitor, in map[string]any, sig string, exp *[5]string, evTime refEntry, ans string) {
+	o := obs{ans: ans}
 	for _, name := range w.order {
 		st := w.subs[name]
 		got := splitList(part(o.ans, name))
@@ -504,6 +623,52 @@ func fixedScripts() []Script {
 var eqvPool = []string{"", "", "", "equal", "sameA"}
 var subOptPool = [][]string{nil, nil, {"uo"}, {"rm=a"}, {"rm=s,c"}, {"rm=0"}, {"uo", "rm=a"}}
 
+// raceOp wraps a write and a subscription into a scenario op.
+func raceOp(kind string, w Op, name string, subOpts []string) Op {
+	o := Op{Op: kind, ID: w.ID, Msg: w.Msg, Opts: append([]string(nil), w.Opts...)}
+	o.Opts = append(o.Opts, "w="+w.Op, "sname="+name)
+	for _, t := range subOpts {
+		if t == "uo" {
+			o.Opts = append(o.Opts, "suo")
+		} else if strings.HasPrefix(t, "rm=") {
+			o.Opts = append(o.Opts, "s"+t)
+		}
+	}
+	return o
+}
+
+func genWrite(r *rand.Rand, s Script, o *oracle) Op {
+	var op Op
+	if s.Cfg.Kind == "val" {
+		return Op{Op: "vset", Msg: genMsg(r), Opts: genWriteOpts(r, "vset", o.val)}
+	}
+	id := pick(r, idPool)
+	if len(o.items) > 0 && r.Intn(2) == 0 {
+		ids := make([]string, 0, len(o.items))
+		for k := range o.items {
+			ids = append(ids, k)
+		}
+		id = pick(r, sortedCopy(ids))
+	}
+	var cur *rmsg
+	if it, ok := o.items[o.icpt(id)]; ok {
+		cur = &it.m
+	}
+	switch k := r.Intn(100); {
+	case k < 40:
+		op = Op{Op: "upd", ID: id, Msg: genMsg(r), Opts: genWriteOpts(r, "upd", cur)}
+	case k < 70:
+		op = Op{Op: "add", ID: id, Msg: genMsg(r), Opts: genWriteOpts(r, "add", cur)}
+	default:
+		op = Op{Op: "del", ID: id, Opts: genWriteOpts(r, "del", cur)}
+	}
+	// the writer always asks to hear a generated id
+	if op.has("gid") && !op.has("icb") {
+		op.Opts = append(op.Opts, "icb")
+	}
+	return op
+}
+
 func genHistory(r *rand.Rand, n int) Script {
 	s := Script{Cfg: genCfg(r)}
 	s.Cfg.Eqv = pick(r, eqvPool)
@@ -517,51 +682,71 @@ func genHistory(r *rand.Rand, n int) Script {
 			maxLive = 1
 		}
 		switch {
-		case (k < 20 || i == 0 && k < 70) && len(live) < maxLive:
+		case (k < 22 || i == 0 && k < 70) && len(live) < maxLive:
 			nsub++
 			name := fmt.Sprintf("k%d", nsub)
 			live = append(live, name)
-			s.Ops = append(s.Ops, Op{Op: "sub", Opts: append([]string{"name=" + name}, pick(r, subOptPool)...)})
+			so := pick(r, subOptPool)
+			if r.Intn(100) < 45 {
+				// the subscriber opens while a write is in flight
+				w := genWrite(r, s, o)
+				o.step(w)
+				s.Ops = append(s.Ops, raceOp(pick(r, []string{"racea", "racea", "raceb"}), w, name, so))
+				continue
+			}
+			s.Ops = append(s.Ops, Op{Op: "sub", Opts: append([]string{"name=" + name}, so...)})
 			continue
-		case k < 28 && len(live) > 0:
+		case k < 30 && len(live) > 0:
 			j := r.Intn(len(live))
 			s.Ops = append(s.Ops, Op{Op: "unsub", Opts: []string{"name=" + live[j]}})
 			live = append(live[:j], live[j+1:]...)
 			continue
 		}
-		var op Op
-		if s.Cfg.Kind == "val" {
-			op = Op{Op: "vset", Msg: genMsg(r), Opts: genWriteOpts(r, "vset", o.val)}
-		} else {
-			id := pick(r, idPool)
-			if len(o.items) > 0 && r.Intn(2) == 0 {
-				ids := make([]string, 0, len(o.items))
-				for k := range o.items {
-					ids = append(ids, k)
-				}
-				id = pick(r, sortedCopy(ids))
-			}
-			var cur *rmsg
-			if it, ok := o.items[o.icpt(id)]; ok {
-				cur = &it.m
-			}
-			switch k := r.Intn(100); {
-			case k < 40:
-				op = Op{Op: "upd", ID: id, Msg: genMsg(r), Opts: genWriteOpts(r, "upd", cur)}
-			case k < 70:
-				op = Op{Op: "add", ID: id, Msg: genMsg(r), Opts: genWriteOpts(r, "add", cur)}
-			default:
-				op = Op{Op: "del", ID: id, Opts: genWriteOpts(r, "del", cur)}
-			}
-			// the writer always asks to hear a generated id
-			if op.has("gid") && !op.has("icb") {
-				op.Opts = append(op.Opts, "icb")
-			}
-		}
+		op := genWrite(r, s, o)
 		o.step(op)
 		s.Ops = append(s.Ops, op)
 	}
 	return s
+}
+
+// raceScope: ALL (prefix, write in flight, follow-up write) over the small alphabet x both scenario
+// kinds x subscription options x equivalence, for Collection and Value.
+func (h *harness) raceScope(tie *lib.Tie) {
+	var alpha []Op
+	for _, id := range []string{"a", "b"} {
+		alpha = append(alpha, Op{Op: "add", ID: id, Msg: "1//-"}, Op{Op: "upd", ID: id, Msg: "2/x/-", Opts: []string{"cia"}},
+			Op{Op: "upd", ID: id, Msg: "1/y/-", Opts: []string{"um=s", "wt=9"}}, Op{Op: "del", ID: id})
+	}
+	alpha = append(alpha, Op{Op: "upd", ID: "a", Msg: "3//-", Opts: []string{"ev=1//-"}})
+	valpha := []Op{{Op: "vset", Msg: "1//-"}, {Op: "vset", Msg: "2/x/-"}, {Op: "vset", Msg: "2/y/-", Opts: []string{"um=s", "wt=9"}},
+		{Op: "vset", Msg: "3//-", Opts: []string{"ev=1//-"}}}
+	subOpts := [][]string{nil, {"uo"}, {"rm=a"}}
+	run := func(kind string, alpha []Op, inits [][]string) {
+		prefixes := [][]Op{nil}
+		for _, a := range alpha {
+			prefixes = append(prefixes, []Op{a})
+		}
+		for _, init := range inits {
+			for _, pre := range prefixes {
+				for _, w := range alpha {
+					for _, rk := range []string{"racea", "raceb"} {
+						for _, so := range subOpts {
+							for _, eqv := range []string{"", "equal"} {
+								for _, post := range alpha[:3] {
+									var ops []Op
+									ops = append(ops, pre...)
+									ops = append(ops, raceOp(rk, w, "k", so), post)
+									h.runScript(Script{Cfg: Cfg{Kind: kind, Tick: 1, Eqv: eqv, Init: init}, Ops: ops}, tie)
+								}
+							}
+						}
+					}
+				}
+			}
+		}
+	}
+	run("coll", alpha, [][]string{nil, {"a~1//-"}})
+	run("val", valpha, [][]string{nil, {"1//-"}})
 }
 
 func (h *harness) smallScope(maxLen int) {
